@@ -10,12 +10,13 @@
    empty world: any number of groups and connections, any interleaving.
    [op_ok] only says that no connection uses the recorder's placeholder id
    "?" (the real recorder id is random).  [quiescent w]: no live connection
-   has a queued action ("once activity stops"). *)
+   has a queued action ("once activity stops"); that it is REACHED by
+   serving the queues alone is C14_quiescence_reachable below. *)
 From Coq Require Import ZArith List Bool String Arith Permutation.
 From Galene Require Import Generated.Guards Model.Signal Model.SignalUsers
   Proofs.SignalUsersBase Proofs.SignalUsersInv Proofs.SignalUsersLeave Proofs.SignalUsersJoin
   Proofs.SignalUsersThms Proofs.SignalUsersDeliver Proofs.SignalUsersC14
-  Generated.Locks Proofs.SignalUsersAtomic.
+  Generated.Locks Proofs.SignalUsersAtomic Proofs.SignalUsersSteps Proofs.SignalUsersQuiesce.
 Import ListNotations.
 Open Scope string_scope.
 Open Scope list_scope.
@@ -145,6 +146,70 @@ Theorem C14_convergence : forall ops w s,
 Proof. exact c14_convergence. Qed.
 Print Assumptions C14_convergence.
 
+(* "Once activity stops" is not a hypothesis that could fail to come true:
+   from every reachable world, serving the queues alone ([is_pump]: OpPump
+   only -- no message is read, nobody disconnects, nobody new arrives)
+   ENDS in a quiescent world.  Serving an action can queue new actions, also
+   for OTHER connections (C14_queue_length_not_a_measure), but only actions
+   of a lower level (AChangePerms > APermsChanged, AKick, ARequestConns >
+   the rest), so three rounds over the connections always suffice
+   (C14_three_rounds_suffice, from ANY world).  Serving the queues can
+   change the membership in one way only: a member with a queued kick
+   ([kick_queued]) is gone afterwards; everybody else stays, in the same
+   order.  The log of what the connections have read is untouched. *)
+Theorem C14_quiescence_reachable : forall ops w s,
+  Forall op_ok ops -> run_log empty_world no_log ops = Some (w, s) ->
+  exists pumps w',
+    forallb is_pump pumps = true /\
+    run_log empty_world no_log (ops ++ pumps) = Some (w', s) /\
+    quiescent w' /\
+    (forall g, members w' g = filter (fun x => negb (kick_queued w x)) (members w g)) /\
+    ((forall x, kick_queued w x = false) -> forall g, members w' g = members w g).
+Proof. exact quiescence_reachable. Qed.
+Print Assumptions C14_quiescence_reachable.
+
+(* The model's own scheduler operation OpQuiesce (round-robin pumping with
+   fuel 1000) never runs out of fuel: it always ends in a quiescent world. *)
+Theorem C14_three_rounds_suffice : forall fuel w, (3 <= fuel)%nat ->
+  exists w', quiesce fuel w = Some w' /\ quiescent w'.
+Proof. exact quiesce_reaches. Qed.
+Print Assumptions C14_three_rounds_suffice.
+
+Theorem C14_op_quiesce_reaches_quiescence : forall ops w s,
+  Forall op_ok ops -> run_log empty_world no_log ops = Some (w, s) ->
+  exists w',
+    run_log empty_world no_log (ops ++ [OpQuiesce]) = Some (w', s) /\
+    quiescent w' /\
+    (forall g, members w' g = filter (fun x => negb (kick_queued w x)) (members w g)).
+Proof. exact quiescence_by_op_quiesce. Qed.
+Print Assumptions C14_op_quiesce_reaches_quiescence.
+
+(* The total length of the live queues is not a termination measure: a
+   concrete reachable world in which one pump turns 12 queued actions into 14. *)
+Theorem C14_queue_length_not_a_measure :
+  exists w w' r, run_ops empty_world (nq_ops ++ [OpPump 1]) = Some w /\
+    step w (OpPump 1) = Running w' r /\
+    total_queue w = 12%nat /\ total_queue w' = 14%nat.
+Proof. exact total_queue_can_grow. Qed.
+Print Assumptions C14_queue_length_not_a_measure.
+
+(* Eventual convergence: every reachable world has a continuation by
+   deliveries only after which the user list of every member of every group
+   IS the group's membership (which is the membership of before, without the
+   members that had a kick queued). *)
+Theorem C14_eventual_convergence : forall ops w s,
+  Forall op_ok ops -> run_log empty_world no_log ops = Some (w, s) ->
+  exists pumps w',
+    forallb is_pump pumps = true /\
+    run_log empty_world no_log (ops ++ pumps) = Some (w', s) /\
+    quiescent w' /\
+    (forall g, members w' g = filter (fun x => negb (kick_queued w x)) (members w g)) /\
+    forall g h, In h (members w' g) ->
+      Permutation (fold_user_events (received w' s h)) (true_list w' g) /\
+      forall id, view_lookup id (fold_user_events (received w' s h)) = truth w' g id.
+Proof. exact eventual_convergence. Qed.
+Print Assumptions C14_eventual_convergence.
+
 (* No event about one group reaches a member of another: a queued user event
    of group g is dropped by a connection whose group is not g (the group
    test of pushClientAction), and consequently every entry of a member's
@@ -236,4 +301,46 @@ Proof.
     split; [vm_compute; reflexivity|]. split; [vm_compute; reflexivity|].
     split; [reflexivity|]. vm_compute. reflexivity.
   - eexists. split; [vm_compute; reflexivity|]. split; [reflexivity|]. vm_compute. reflexivity.
+Qed.
+
+(* the hypotheses of C14_quiescence_reachable / C14_eventual_convergence in a
+   NON-quiescent world: [nq_ops] = three members of g and one of `other`
+   have joined and nothing has been served; the operator has made idb a
+   presenter and has kicked idc.  16 actions are queued, among them a
+   permission change (for 1) and a kick (for 2).  Three rounds of pumps end
+   in a quiescent world in which g has lost exactly the kicked member and
+   the two others hold the true list. *)
+Example C14_quiescence_nontrivial :
+  Forall op_ok nq_ops /\
+  exists w s, run_log empty_world no_log nq_ops = Some (w, s) /\
+    ~ quiescent w /\ total_queue w = 16%nat /\
+    members w "g" = [0; 1; 2]%nat /\ kick_queued w 2 = true /\
+    filter (fun x => negb (kick_queued w x)) (members w "g") = [0; 1]%nat /\
+    forallb is_pump nq_pumps = true /\
+    exists w', run_log empty_world no_log (nq_ops ++ nq_pumps) = Some (w', s) /\
+      quiescent w' /\ members w' "g" = [0; 1]%nat /\
+      fold_user_events (received w' s 0) =
+        [("ida", "oper", ["op"; "present"; "message"]); ("idb", "ann", ["message"; "present"])] /\
+      fold_user_events (received w' s 1) =
+        [("idb", "ann", ["message"; "present"]); ("ida", "oper", ["op"; "present"; "message"])] /\
+      true_list w' "g" =
+        [("ida", "oper", ["op"; "present"; "message"]); ("idb", "ann", ["message"; "present"])].
+Proof.
+  split; [exact nq_ops_ok|].
+  destruct (run_log empty_world no_log nq_ops) as [[w s]|] eqn:E; [|vm_compute in E; discriminate].
+  exists w, s. split; [reflexivity|].
+  destruct (run_log empty_world no_log (nq_ops ++ nq_pumps)) as [[w' s']|] eqn:E'; [|vm_compute in E'; discriminate].
+  assert (Es : s' = s).
+  { rewrite run_log_app, E in E'.
+    assert (Hw : run_ops w nq_pumps = Some w') by (eapply run_log_world; exact E').
+    rewrite (run_log_pumps nq_pumps w s w' eq_refl Hw) in E'. inversion E'. reflexivity. }
+  subst s'.
+  vm_compute in E. inversion E; subst w s. clear E.
+  split. { intro Hq. pose proof (Hq 0%nat _ eq_refl eq_refl) as X. discriminate X. }
+  split; [vm_compute; reflexivity|]. split; [vm_compute; reflexivity|].
+  split; [vm_compute; reflexivity|]. split; [vm_compute; reflexivity|]. split; [reflexivity|].
+  exists w'. split; [reflexivity|].
+  vm_compute in E'. inversion E'; subst w'. clear E'.
+  split; [apply quiescentb_ok; vm_compute; reflexivity|].
+  vm_compute. repeat split.
 Qed.
